@@ -16,7 +16,14 @@ def build(rng, i):
     for p in paths:
         sp.files[p] = p + "\n"
     s = sp.src("src", paths)
-    kind = i % 7
+    kind = i % 8
+    if kind == 7:
+        # one out-port fanned out to several Go-function consumers that read the shared IP through the library (FileIP.Read)
+        sp.max = max(sp.max, 4)
+        a = sp.proc(t3.Proc("mk", kind="cattok", ins=[("a", [(s, "out")])], outs=[("o", "{i:a}.mk")]))
+        for k in range(rng.randint(2, 4)):
+            sp.proc(t3.Proc("rd%d" % k, kind="cattok", ins=[("a", [(a, "o")])], outs=[("o", "{i:a}.rd%d" % k)], gofunc=True))
+        return sp
     if kind == 6:
         # one sub-stream carrier fanned out to several joining processes: the carrier IP (and its sub-stream) is shared by them
         a = sp.proc(t3.Proc("pre", kind="cattok", ins=[("a", [(s, "out")])], outs=[("o", "{i:a}.pre")]))
@@ -93,7 +100,7 @@ def case(args):
         elif impl["rc"] != 0:
             problems.append(("unexpected-failure", "rc=%s %s" % (impl["rc"], impl["stderr"][-300:])))
         return {"spec": sp.text(), "bufsize": sp.bufsize, "problems": problems, "ntasks": len(sp.nodes), "rc": impl["rc"], "stderr": impl["stderr"][-200:], "yield": None,
-                "wall": impl["wall"], "kind": ["fanout+tagging", "source-tagging+groupby", "fanin+multicore+params", "substream+streaming", "siblings+modifiers", "tagger+concatenator-siblings", "substream-fanout"][i % 7] + ("/hooks-off" if quiet else "")}
+                "wall": impl["wall"], "kind": ["fanout+tagging", "source-tagging+groupby", "fanin+multicore+params", "substream+streaming", "siblings+modifiers", "tagger+concatenator-siblings", "substream-fanout", "fanout-to-gofunc-readers"][i % 8] + ("/hooks-off" if quiet else "")}
     finally:
         sc.close()
 
@@ -141,14 +148,14 @@ def run(rep, tier, seed):
     bad = {k: m for k, (ok, m) in out.items() if not ok}
     if bad:
         raise RuntimeError("race build failed: %s" % str(bad)[-800:])
-    n = 35 if tier == "quick" else 560
+    n = 40 if tier == "quick" else 640
     results = t3.run_many(case, [(seed, i) for i in range(n)], workers=8)
     results += t3.run_many(ks.ks_case, [(seed, i, ("race",)) for i in range(n // 3)], workers=8)
     results += t3.run_many(feeder_case, [(seed, i) for i in range(n // 2)], workers=8)
     t3.report_t3(rep, MODULE, proved, results, "lock discipline on the regenerated skeletons / race-detector runs")
     rep.cov["evaluations"] = len(results)
     rep.cov["distinct_nontrivial"] = len({r["spec"] for r in results})
-    rep.cov["rule"] = "workflows built with `go build -race -tags verif`: fan-out of one out-port to several consumers incl. a tagging component (MapToTags) and sibling outputs, tagging on a shared source plus group-by-tag concatenation, fan-in with multi-core tasks and parameter feeders, sub-streams + streaming + chains, sibling consumers whose output patterns use path modifiers / default names / parameter feeders, a tagging component beside a Concatenator on one out-port, one sub-stream carrier fanned out to several joining processes, chains of processes with FromStr parameter feeders run with RunTo; in half of the runs the hooks are inactive (they take no lock then, so they cannot hide a race), in a quarter seeded delays at the hook points; a DATA RACE report (exit 66) is a failing input; the race detector is search, not proof; every case is distinct and non-trivial"
+    rep.cov["rule"] = "workflows built with `go build -race -tags verif`: fan-out of one out-port to several consumers incl. a tagging component (MapToTags) and sibling outputs, tagging on a shared source plus group-by-tag concatenation, fan-in with multi-core tasks and parameter feeders, sub-streams + streaming + chains, sibling consumers whose output patterns use path modifiers / default names / parameter feeders, a tagging component beside a Concatenator on one out-port, one sub-stream carrier fanned out to several joining processes, one out-port fanned out to several Go-function consumers that read the shared IP with FileIP.Read, chains of processes with FromStr parameter feeders run with RunTo; in half of the runs the hooks are inactive (they take no lock then, so they cannot hide a race), in a quarter seeded delays at the hook points; a DATA RACE report (exit 66) is a failing input; the race detector is search, not proof; every case is distinct and non-trivial"
     rep.cov["rule"] += "; plus kitchen-sink workflows (tools/ks.py: random workflows decorated with tagging components, sub-streams, Concatenator / FileSplitter, streamed pairs, component parameter feeders, Go-function and multi-core processes, RunTo) judged by the model-free race-detector oracle"
     rep.cov["samples"] = [results[0]["spec"]]
     kinds = {}
